@@ -59,3 +59,7 @@ def result(violations=None, situations=None, counters=None, nontrivial=False, ke
              nontrivial=bool(nontrivial), key=key, sample=sample)
     r.update(kw)
     return jsonable(r)
+
+
+def tadd_iso(t: str, seconds: int) -> str:
+    return str(np.datetime64(t, "s") + np.timedelta64(int(seconds), "s"))
